@@ -33,6 +33,9 @@ ASSUMPTIONS = [
 CHUNK = 3
 
 BASES = [("bent3", "orthophase", "rydberg"), ("bent3", "local", "rydberg"), ("pair", "global", "rydberg"), ("bent3", "twophase", "rydberg"), ("bent3", "dmm", "rydberg"), ("zig4", "slm", "rydberg"), ("bent3", "global", "xy"), ("zig4", "twophase", "xy")]
+# integer atom names given out of order (a serialisation round trip turns them into the strings "2", "10", "1"), with per-atom drives
+BASES += [("bent3#int", "dmm", "rydberg"), ("bent3#int", "local", "rydberg")]
+SHAPES = dict(SHAPES, **{"bent3#int": SHAPES["bent3"]})
 
 
 def _rot(c, a):
@@ -84,6 +87,8 @@ def _spec(shape, kind, basis):
     else:
         d = drives(kind, 0.7, n)
     spec = {"coords": SHAPES[shape], "device": "mock", "basis": basis, "pulses": d["pulses"] + d.get("extra", [])}
+    if shape.endswith("#int"):
+        spec["ids"] = [2, 10, 1]
     for k in ("dmm", "slm", "local_channel"):
         if k in d:
             spec[k] = d[k]
@@ -119,7 +124,11 @@ def _observe(spec, be, serialise=False, shots=0):
     import emu_sv as sv
 
     mod = sv if be == "sv" else m
-    seq = kit.build_sequence(spec)
+    import warnings
+
+    with warnings.catch_warnings():
+        warnings.simplefilter("ignore", DeprecationWarning)  # integer atom names are deprecated in Pulser, still legal
+        seq = kit.build_sequence(spec)
     if serialise:
         seq = pulser.Sequence.from_abstract_repr(seq.to_abstract_repr())
     ev = [0.5, 1.0]
